@@ -45,6 +45,24 @@ def run_round(res, case, attempt=0):
 
     results = [None] * n
     start = threading.Barrier(n)
+    import socket as _socket
+    default_timeout_before = _socket.getdefaulttimeout()
+    dead = _socket.socket()
+    dead.bind(('127.0.0.1', 0))
+    dead_port = dead.getsockname()[1]
+    dead.close()                      # nobody listens there any more
+    unreachable = {}
+
+    def lost_client():
+        # a requestor of the same process whose destination is down
+        ae = applicationentity.ClientAE('LOST', max_pdu_length=16384)
+        ae.timeout = 8
+        ae.add_scu(sopclass.verification_scu)
+        try:
+            with ae.request_association({'aet': 'NOBODY', 'address': '127.0.0.1', 'port': dead_port}):
+                unreachable['error'] = None
+        except Exception as exc:
+            unreachable['error'] = exc
 
     def client(c, port):
         title = 'RJ%dX%d' % (k % 1000, c)
@@ -67,6 +85,7 @@ def run_round(res, case, attempt=0):
         server.add_scp(sopclass.verification_scp)
         with tcpnet.serving(server):
             threads = [threading.Thread(target=client, args=(c, server.port), daemon=True) for c in range(n)]
+            threads.append(threading.Thread(target=lost_client, daemon=True))
             t0 = time.time()
             for t in threads:
                 t.start()
@@ -113,3 +132,14 @@ def run_round(res, case, attempt=0):
     if handler_errors:
         res.violation('server-handler-error', 'C20.server', '%s: %s: %s' % (
             where, type(handler_errors[0]).__name__, handler_errors[0]), case)
+    # one association could not even be opened: that is its own affair - nothing process-wide that
+    # every other (later) socket inherits may be left changed by it
+    res.count('oracle.failed-connect-leaves-no-trace')
+    if 'error' in unreachable and unreachable['error'] is None:
+        res.inconclusive.append('%s: the dead port answered' % where)
+    if _socket.getdefaulttimeout() != default_timeout_before:
+        res.violation('process-wide-socket-default-left-changed', 'C20.isolation',
+                      '%s: socket.getdefaulttimeout() was %r before the round and is %r after it (one requestor '
+                      'could not reach its destination): every socket created from now on inherits it' % (
+                          where, default_timeout_before, _socket.getdefaulttimeout()), case)
+        _socket.setdefaulttimeout(default_timeout_before)
